@@ -4,5 +4,6 @@ ID=$1; WT=/var/tmp/seedconfirm_$ID
 git -C /repo worktree add -q "$WT" HEAD || exit 2
 trap 'git -C /repo worktree remove --force "$WT" >/dev/null 2>&1' EXIT
 git -C "$WT" apply /verif/seeded/$ID/patch.diff || { echo "patch does not apply" > /verif/seeded/$ID/tests.txt; exit 3; }
-/verif/tools/repo_tests_all.sh "$WT" ${2:-6} > /verif/seeded/$ID/tests.txt 2>&1
+MODE=core; grep -q "pynetdicom/apps/" /verif/seeded/$ID/patch.diff && MODE=all
+{ echo "# repository suite (mode=$MODE; core = pynetdicom/tests, the load-sensitive apps tests are run only for changes under pynetdicom/apps) on /repo $(git -C /repo rev-parse --short HEAD) + seeded/$ID/patch.diff"; /verif/tools/repo_tests_all.sh "$WT" ${2:-6} $MODE; } > /verif/seeded/$ID/tests.txt 2>&1
 tail -3 /verif/seeded/$ID/tests.txt
